@@ -289,10 +289,22 @@ pub fn run_sequence(cfg: &Cfg, seed: u64, nops: usize, path: &str) -> (String, S
     };
     let nkeys = rng.range(3, 12);
     let mut reopens = 0;
+    // In persistent configurations under a memory limit every sequence contains, at a fixed place, the
+    // pattern: accept a key, refuse an update of it (too big for the limit) while its record is still
+    // in the write-behind buffer, flush, reopen, read.
+    let script_at = if cfg.persistent && cfg.limit.is_some() { nops / 2 } else { usize::MAX };
     for i in 0..nops {
         let key = gen_key(&mut rng, nkeys, cfg);
         let now = now_ns();
         let kind = if cfg.focus == 1 { [0, 0, 0, 0, 0, 84, 84, 84, 84, 42, 30, 76, 90, rng.below(100)][rng.below(14) as usize] } else { rng.below(100) };
+        let step = i.wrapping_sub(script_at);
+        let scripted = step < 5;
+        let (key, kind) = if scripted { (format!("scripted-{seed}").into_bytes(), [0u64, 0, 90, 96, 30][step]) } else { (key, kind) };
+        let forced_value = match step {
+            0 => Some(Val::Rand(seed, 120)),
+            1 => Some(Val::Rand(seed + 1, cfg.limit.unwrap_or(0))),
+            _ => None,
+        };
         let kh = if key.len() > 300 { format!("@r{},{}", 0, 0) } else { hex(&key) };
         // long keys are passed as a generated spec: first byte + fill
         let (key, kh) = if key.len() > 300 {
@@ -305,9 +317,12 @@ pub fn run_sequence(cfg: &Cfg, seed: u64, nops: usize, path: &str) -> (String, S
         match kind {
             0..=24 => {
                 let v = gen_value(&mut rng, seed.wrapping_mul(1000).wrapping_add(i as u64));
+                let v = forced_value.clone().unwrap_or(v);
                 let vb = v.bytes();
                 let ts = gen_ts(&mut rng, r.store(), &key, now, cfg.extreme);
+                let ts = if scripted { None } else { ts };
                 let use_ttl_api = if cfg.focus == 1 { rng.chance(2, 3) } else { rng.chance(1, 3) };
+                let use_ttl_api = use_ttl_api && !scripted;
                 let mut ttl = if use_ttl_api { gen_ttl(&mut rng) } else { 0 };
                 if cfg.focus == 1 && use_ttl_api && rng.chance(1, 2) {
                     ttl = rng.range(1, 3000); // expired on arrival (timestamp four hours back, below)
@@ -593,7 +608,7 @@ pub fn run_sequence(cfg: &Cfg, seed: u64, nops: usize, path: &str) -> (String, S
                 let ta = now_ns();
                 r.finish_op(format!("dump sh=0 clk=0 tb={tb} ta={ta}"), format!("dump:{:016x}", fnv1a(s.as_bytes())));
             }
-            96..=97 if cfg.persistent && reopens < 2 => {
+            96..=97 if cfg.persistent && (reopens < 2 || scripted) => {
                 reopens += 1;
                 // clean close and reopen
                 let flushed = r.store().flush();
@@ -733,6 +748,9 @@ pub fn run(opts: &Opts) -> i32 {
     }
     if opts.get("only") == Some("limited") {
         cfgs.retain(|c| c.limit.is_some());
+        // refused writes must meet records that are still in the write-behind buffer: with the
+        // periodic coordinator paused (hook H11) only the sequence's own flush calls drain it
+        feoxdb::verif::dev::set_periodic_flush_paused(true);
     }
     if opts.get("only") == Some("persistent") {
         cfgs.retain(|c| c.persistent);
